@@ -1029,6 +1029,15 @@ fn make_var_heavy(r: &mut Rng, p: &mut Prog, d: &J) {
             p.rules.push(inner);
         }
     }
+    // (rarely) two function-valued variables defined in terms of each other: an evaluation error
+    // whichever reference comes first - never a verdict that depends on the order
+    if r.chance(1, 12) {
+        let f = |v: &str| Arg::Func(Box::new(Func { name: "count".into(), args: vec![Arg::Query(Query { some: false, parts: vec![Part::Var(v.to_string())] })] }));
+        p.lets.push(Let { name: "cya".into(), val: f("cyb") });
+        p.lets.push(Let { name: "cyb".into(), val: f("cya") });
+        let c = |v: &str, n: i64| Line { alts: vec![Clause::Cmp(Cmp { not: false, q: Query { some: false, parts: vec![Part::Var(v.to_string())] }, op: Op::Eq, opnot: false, rhs: Some(rules::Rhs::Lit(J::Int(n))), msg: None })] };
+        p.rules.push(Rule { name: "probe_cycle".into(), when: vec![], body: Body { lets: vec![], lines: vec![c("cya", 1), c("cyb", 0)] } });
+    }
     // two rules of one name (legal), each with its own rule-level variable of the same
     // name bound to something else; no rule refers to them by name
     if r.chance(1, 3) {
